@@ -1,6 +1,7 @@
 (* C04 — Two-stage lazy indexing of dask arrays equals composed outer indexing, lazily.  Only statements here. *)
-From Coq Require Import ZArith List Bool.
-From KV Require Import Base.Sx Model.DaskIdx Proofs.DaskIdxP Proofs.DaskSliceP Proofs.DaskReadsP Proofs.DaskTwoStageP.
+From Coq Require Import ZArith List Bool Permutation.
+From KV Require Import Base.Sx Model.DaskIdx Model.DaskJoint Proofs.DaskIdxP Proofs.DaskSliceP Proofs.DaskReadsP
+  Proofs.DaskTwoStageP Proofs.DaskJointP.
 Import ListNotations.
 Open Scope Z_scope.
 
@@ -132,3 +133,81 @@ Theorem C04_reads_two_stage_interval : forall n s1 s2 lo1 hi1 lo2 hi2, 0 <= n ->
   0 <= lo1 + lo2 /\ lo1 + lo2 <= lo1 + hi2 /\ lo1 + hi2 <= hi1 /\ hi1 <= n.
 Proof. exact d_compose_two. Qed.
 Print Assumptions C04_reads_two_stage_interval.
+
+(* ---- joint retrieval over several stores / several indexers of one stored array (Model/DaskJoint.v) ---- *)
+(* get() keys the selected arrays by their dask names (first.setdefault(name, ...); the merged graph has one task per
+   key).  For ANY world of stores w, ANY naming scheme that separates different (store, array name, chain) triples,
+   and any list of indexers over any stores / arrays: joint = one by one (C04_joint then gives d_index for each). *)
+Theorem C04_joint_named : forall (w : Z -> Z -> d_arr) (tf : Z -> d_arr -> d_arr) (K : Type) (keqb : K -> K -> bool)
+    (name : j_ind -> K) l k2,
+  (forall a, keqb a a = true) ->
+  (forall i j, In i l -> In j l -> keqb (name i) (name j) = true ->
+     ji_store i = ji_store j /\ ji_name i = ji_name j /\ ji_chain i = ji_chain j) ->
+  j_get w tf K keqb name l k2 = d_get_joint (map (j_sem w tf) l) k2.
+Proof. intros w tf K keqb name l k2 R S. exact (j_get_named w tf K keqb name R l k2 S). Qed.
+Print Assumptions C04_joint_named.
+(* ... in particular the name built from (store, array name, chain), the one executed by the correspondence *)
+Theorem C04_joint_names : forall w tf l k2,
+  j_get w tf j_ind j_ind_eqb j_name l k2 = d_get_joint (map (j_sem w tf) l) k2.
+Proof. exact j_get_names. Qed.
+Print Assumptions C04_joint_names.
+(* a name that forgets the store is NOT enough: two stores, same array name, same selection *)
+Theorem C04_joint_names_need_store : exists shape l k2,
+  option_map (map d_values) (j_get (j_world shape) d_transform _ j_nostore_eqb j_name_nostore l k2)
+    = Some [[0; 1]; [0; 1]] /\
+  option_map (map d_values) (d_get_joint (map (j_sem (j_world shape) d_transform) l) k2)
+    = Some [[0; 1]; [2000; 2001]].
+Proof. exact j_get_nostore_refuted. Qed.
+Print Assumptions C04_joint_names_need_store.
+
+(* reads of a joint request of contiguous indexers (any number of stores, stored arrays, indexers per stored array,
+   axes, stages): the get_chunk calls (store, array, chunk) of the one merged computation are exactly the chunks
+   that meet, on every axis, the composed region of SOME indexer derived from that stored array — each once. *)
+Theorem C04_joint_reads : forall l rs, (forall i, In i l -> j_pos i) -> j_reads l = Some rs ->
+  NoDup rs /\ forall key, In key rs <-> exists i, In i l /\ j_overlaps key i = true.
+Proof. exact j_reads_spec. Qed.
+Print Assumptions C04_joint_reads.
+(* meaning of the overlap test on one axis: the chunk's extent meets the composed interval (as in C04_reads) *)
+Theorem C04_joint_reads_overlap_meaning : forall cs ks id, j_meets_axis id (cs, ks) = true <->
+  exists lo hi, d_compose_region 0 (fold_right Z.add 0 cs) ks = Some (lo, hi) /\ 0 <= id /\
+    exists c, nth_error cs (Z.to_nat id) = Some c /\
+      Z.max lo (fold_right Z.add 0 (firstn (Z.to_nat id) cs)) <
+      Z.min hi (fold_right Z.add 0 (firstn (Z.to_nat id) cs) + c).
+Proof. exact j_meets_axis_iff. Qed.
+Print Assumptions C04_joint_reads_overlap_meaning.
+(* model = executable spec (filter of all chunks of the stored arrays involved); both reject together *)
+Theorem C04_joint_reads_model_is_spec : forall l, (forall i, In i l -> j_pos i) ->
+  match j_reads l, j_spec_reads l with
+  | Some rs, Some rs' => Permutation rs rs' /\ NoDup rs
+  | None, None => True
+  | _, _ => False
+  end.
+Proof. exact j_reads_model_is_spec. Qed.
+Print Assumptions C04_joint_reads_model_is_spec.
+(* one computation per selected array instead of one merged computation reads a shared chunk twice *)
+Theorem C04_joint_reads_need_one_computation : exists l rs, (forall i, In i l -> j_pos i) /\
+  j_reads_seq l = Some rs /\ ~ NoDup rs /\ exists rs', j_reads l = Some rs' /\ NoDup rs'.
+Proof. exact j_reads_seq_refuted. Qed.
+Print Assumptions C04_joint_reads_need_one_computation.
+
+(* Finding F48 (open): when dask_getitem's hand-made cull flattens a selected array (a stage keeps less than half of
+   the blocks: j_culled, tied to the code by observing the graphs), dask may fuse the stored array's layer into an
+   un-culled selected array and the flattened copies of the chunk-fetch tasks run again.  The model j_reads is NOT
+   faithful there; what is stated instead is the envelope the correspondence enforces: a chunk may be fetched a
+   second time only if a culled AND an un-culled indexer of the same stored array both need it (j_twice), ... *)
+Theorem C04_joint_reads_twice_only_if : forall l key, In key (j_twice l) ->
+  exists i j, In i l /\ In j l /\ j_culled i = true /\ j_culled j = false /\
+              j_overlaps key i = true /\ j_overlaps key j = true.
+Proof. exact j_twice_In. Qed.
+Print Assumptions C04_joint_reads_twice_only_if.
+(* ... so with the guard "no selected array is culled" C04_joint_reads is the whole story (each chunk exactly once) *)
+Theorem C04_joint_reads_partial : forall l rs, (forall i, In i l -> j_pos i) ->
+  (forall i, In i l -> j_culled i = false) -> j_reads l = Some rs ->
+  j_twice l = [] /\ NoDup rs /\ forall key, In key rs <-> exists i, In i l /\ j_overlaps key i = true.
+Proof. intros l rs HP HC H. split; [exact (j_twice_guard l HC)|exact (j_reads_spec l rs HP H)]. Qed.
+Print Assumptions C04_joint_reads_partial.
+(* ... and the guard is needed: the witness of F48 (observed on the real code: both chunks are fetched twice) *)
+Theorem C04_joint_reads_refuted : exists l, (forall i, In i l -> j_pos i) /\
+  j_twice l = [(1, 0, [0; 0]); (1, 0, [1; 0])] /\ map j_culled l = [true; false].
+Proof. exact j_twice_witness. Qed.
+Print Assumptions C04_joint_reads_refuted.
